@@ -198,7 +198,7 @@ func (w *world) leak(key, msg string) {
 	}
 }
 
-var deviations = []string{"ok", "401-basic", "401-bearer-own", "401-bearer-foreign", "401-bearer-http-self", "401-two", "401-malformed", "401-none"}
+var deviations = []string{"ok", "401-basic", "401-bearer-own", "401-bearer-foreign", "401-bearer-http-self", "401-two", "401-malformed", "401-none", "conn-reset"}
 
 func (w *world) name(reg, realmHost string) {
 	if w.named[reg] == nil {
@@ -247,6 +247,11 @@ func (w *world) RoundTrip(req *http.Request) (*http.Response, error) {
 	if ch > 0 {
 		d := deviations[ch]
 		w.devs = append(w.devs, fmt.Sprintf("%s@%d(%s)", d, w.nreq-1, role(host)))
+		if d == "conn-reset" {
+			// the round trip fails at transport level (whatever the request carried was sent)
+			l.Note = d
+			return nil, errors.New("read: connection reset by peer")
+		}
 		l.Note, l.Status = d, 401
 		w.asked[host] = true
 		if d == "401-bearer-foreign" || d == "401-two" {
@@ -618,7 +623,7 @@ func TestVerifC11(t *testing.T) {
 	rec := ev.New()
 	defer rec.Flush(t)
 	rec.Rule("scenario = operation {ping, manifest get/head/put/delete, blob get through a redirect to a CDN host, blob head/put (single request, streamed with unknown digest, chunked)/mount/delete, tag list (one page, three pages), tag delete, referrers (one page, paged), read through a mirror, cross-registry copy, copy of an image with an external layer URL} x registry alone / with a mirror that has its own credentials and the same content x configuration names equal to the host names / the upstream or the mirror configured under an alias name x auth scheme of the registry {basic, bearer via its token endpoint, bearer with an identity token (POST/refresh flow)} x per-repository auth on/off x TLS configured or not; every host has its own distinctive credentials. " +
-		"Per scenario every sequence of at most k deviations (k=2 quick, 3 thorough; 1 for the copies in quick): any host — registry, mirror, token endpoint, redirect target, external layer host — answers 401 at any request position with {Basic, Bearer naming its own endpoint, Bearer naming a foreign host, Bearer naming an http:// realm on itself, two challenges, malformed, none}. " +
+		"Per scenario every sequence of at most k deviations (k=2 quick, 3 thorough; 1 for the copies in quick): any host — registry, mirror, token endpoint, redirect target, external layer host — answers 401 at any request position with {Basic, Bearer naming its own endpoint, Bearer naming a foreign host, Bearer naming an http:// realm on itself, two challenges, malformed, none} or drops the connection. " +
 		"Oracle: every URL, header and body received by every host and the client's trace-level log are scanned for every secret (user, password, identity token, issued bearer and refresh tokens) raw, URL-encoded, base64 and as base64(user:pass): a secret of registry Y may appear only at Y and at a token endpoint named by a challenge Y itself sent, never over http to a host configured for TLS, never in the log. distinct_nontrivial = distinct (scenario, deviation list, requests seen)")
 	rec.Assume("credential helpers are replaced by static credentials; TLS is represented by the URL scheme")
 	if rd := rec.ReplayData(); rd != nil {
